@@ -138,7 +138,8 @@ impl<'a> Worker<'a> {
         }
         self.stats.outcomes.insert(res.outcome_sig ^ (ci as u64).wrapping_mul(0x9e3779b97f4a7c15));
         let n = self.shared.execs.fetch_add(1, Ordering::Relaxed);
-        if n % 50_000 == 7 || n < 3 {
+        // samples: the very first execution and a few full-depth histories picked by their state hash
+        if n == 0 || (res.top_ops >= cfg.depth.min(4) && res.state_hash % 9973 == 1) {
             let mut s = self.shared.samples.lock().unwrap();
             if s.len() < 6 {
                 let mut r = vec![format!("scenario {}", cfg.name)];
